@@ -13,6 +13,7 @@ package main
 
 import (
 	"fmt"
+	"sort"
 	"time"
 
 	"github.com/anthdm/hollywood/actor"
@@ -157,10 +158,27 @@ func c15Internal(c *caseCtx) (res caseResult) {
 		batch[i] = wireDeliver{Target: it.target, Sender: it.sender, Msg: it.msg}
 	}
 	cs := &captureStream{}
-	if p := catchPanic(func() { writerInvoke(e1, "peer:9", cs, fakeConn{}, batch) }); p != "" {
-		res.violate("the stream writer panicked on the batch (on a node this kills the process): %s", p)
-		res.Sample = map[string]any{"scenario": res.Desc}
-		return
+	// the messages leave in 1-4 consecutive batches (one envelope each) over the same connection: what the
+	// reader keeps from one envelope must not show in the next
+	cuts := []int{0}
+	if len(batch) > 1 && c.rng.Intn(2) == 0 {
+		for k := c.rng.Intn(3) + 1; k > 0; k-- {
+			cuts = append(cuts, 1+c.rng.Intn(len(batch)-1))
+		}
+		sort.Ints(cuts)
+	}
+	cuts = append(cuts, len(batch))
+	res.Desc += fmt.Sprintf(" envelopes<=%d", len(cuts)-1)
+	for k := 0; k+1 < len(cuts); k++ {
+		part := batch[cuts[k]:cuts[k+1]]
+		if len(part) == 0 {
+			continue
+		}
+		if p := catchPanic(func() { writerInvoke(e1, "peer:9", cs, fakeConn{}, part) }); p != "" {
+			res.violate("the stream writer panicked on the batch (on a node this kills the process): %s", p)
+			res.Sample = map[string]any{"scenario": res.Desc}
+			return
+		}
 	}
 	lg := registerTargets(e2, "peer:9", ids)
 	var envs []*remote.Envelope
